@@ -104,6 +104,23 @@ def range_limits(fn, info):
     return G.CTYPES.get(fn.typing, G.CTYPES['long'])
 
 
+def counter_overflow_expected(lo, hi, a, b, c, rev):
+    """does the C counter arithmetic of the loop form the compiler uses leave [lo, hi] although all values fit?
+    forward ascending / signed descending: the exit value start + len*step; forward unsigned descending (dedicated
+    form `for (t = a + s; t > b + s; ) { t -= s; ...`): a + s and b + s; reversed(range()): the loop runs from the
+    last value towards `start`, the first value comes from a formula whose intermediates go up to 2*|step| beyond
+    the bounds.  Nearness to 0 of unsigned counters is NOT in this class: the dedicated loop form handles it."""
+    n = len(range(a, b, c))
+    s = abs(c)
+    if not rev:
+        if c > 0:
+            return a + n * c > hi
+        if lo < 0:
+            return a + n * c < lo
+        return a + s > hi or (b >= 0 and b + s > hi)
+    return max(a, b) + 2 * s > hi or (lo < 0 and min(a, b) - 2 * s < lo)
+
+
 def classify(fn, info, exp, got):
     """mechanism key from structural features of the template and the case (never from concrete values)"""
     if 'packed' in info:
@@ -127,10 +144,9 @@ def classify(fn, info, exp, got):
             if info.get('bkind') in ('obj', 'expr') and max(a, b) > 2 ** 63 - 1 and gk == 'exc:OverflowError':
                 # object bounds are converted to Py_ssize_t whatever the target type is
                 return 'range-object-bound-exceeds-ssize_t'
-            near = min(abs(v - lim) for v in (a, b) for lim in (lo, hi)) <= abs(c)
-            if near or info.get('exit_fits') is False:
+            if counter_overflow_expected(lo, hi, a, b, c, bool(info.get('rev'))):
                 # all produced values fit the counter type, but the counter arithmetic (exit value start+len*step,
-                # the +-step offset of descending unsigned loops, the first-value formula of reversed(range()))
+                # the +step offset of descending unsigned loops, the first-value formula of reversed(range()))
                 # leaves the range of the type
                 return 'crange-counter-arithmetic-overflow-at-type-limit:%s%s' % (sign, rev)
         extra = ':neg-stop' if info.get('neg_stop_unsigned') else ''
@@ -143,8 +159,7 @@ def classify(fn, info, exp, got):
         return 'enumerate-start-evaluated-before-iterable'
     if kind.startswith('enum-') and feat == 'start-hostile':
         return 'enumerate-start-used-as-is'
-    if kind.startswith('bytes-') and info.get('highbyte') and fn.typing in ('int', 'long', 'short') and feat == 'mu0' or \
-            (kind.startswith('bytes-') and info.get('highbyte') and fn.typing in ('int', 'long', 'short')):
+    if kind.startswith('bytes-') and info.get('highbyte') and fn.typing in ('int', 'long', 'short'):
         return 'bytes-iter-signed-char-widening'
     if kind.startswith('bytes-literal-objtarget'):
         return 'bytes-literal-object-target-yields-bytes'
@@ -225,11 +240,13 @@ def generate(ck):
         G.gen_range_literal(g, 3, ['untyped'], rng, rev=True)
         G.gen_range_literal(g, 4, ['long', 'unsigned int', 'int'], rng, rev=True, sample=9)
     else:
-        G.gen_range_literal(g, 8, ['untyped', 'long'], rng)
-        G.gen_range_literal(g, 8, ['untyped', 'long'], rng, rev=True)
-        G.gen_range_literal(g, 5, ['objinit', 'cinit', 'int', 'unsigned int', 'Py_ssize_t', 'signed char', 'size_t', 'object'], rng)
-        G.gen_range_literal(g, 5, ['unsigned int', 'int', 'cinit', 'size_t', 'signed char'], rng, rev=True)
-    G.gen_range_typebounds(g, list(G.CTYPES), rng, ck.pick(16, 400))
+        G.gen_range_literal(g, 8, ['untyped'], rng)
+        G.gen_range_literal(g, 6, ['long'], rng)
+        G.gen_range_literal(g, 6, ['untyped'], rng, rev=True)
+        G.gen_range_literal(g, 4, ['long'], rng, rev=True)
+        G.gen_range_literal(g, 4, ['objinit', 'cinit', 'int', 'unsigned int', 'Py_ssize_t', 'signed char', 'size_t', 'object'], rng, sample=40)
+        G.gen_range_literal(g, 4, ['unsigned int', 'int', 'cinit', 'size_t', 'signed char'], rng, rev=True, sample=20)
+    G.gen_range_typebounds(g, list(G.CTYPES), rng, ck.pick(16, 160))
     ctypes = list(G.CTYPES)
     steps_q = ['n1', 'n2', -3, -2, -1, 1, 2, 3]
     steps_t = ['n1', 'n2', -7, -4, -3, -2, -1, 0, 1, 2, 3, 4, 7]
@@ -270,7 +287,7 @@ def generate(ck):
 def main(ck):
     tree = cy.Tree('C14')
     fns = generate(ck)
-    per_mod = max(40, min(300, -(-len(fns) // 14)))
+    per_mod = max(40, min(ck.pick(300, 90), -(-len(fns) // ck.pick(14, 48))))
     done, lost = build_all(ck, tree, fns, per_mod, 'c14')
     ck.cov['t_build'] = round(ck.elapsed(), 1)
     for f, inf in lost[:10]:
